@@ -163,7 +163,7 @@ class CallStatement(LeafNode, _CallStatementBase):
         Other parameters that are passed on to the parent class constructor.
     """
 
-    _traversable = ['name', 'arguments', 'kwarguments']
+    _traversable = ['name', 'arguments', 'kwarguments', 'chevron']
 
     @field_validator('arguments', mode='before')
     @classmethod
